@@ -469,7 +469,18 @@ def run_C13(ctx):
 
 SPECS["C13"] = dict(
     level="proof",
-    relevant=lambda comp, kv: {"no_panic", "iter_spec"},
+    manifest=dict(
+        text="Machine-checked theorems (Props/C13.v, closed under the global context): for every item type, lookups and op, "
+             "the iterator state machine of the model equals the declarative expansion (iter_changes = expand_op, "
+             "iter_all_changes = concat of per-op expansions, shape of every change, slice-wise expansion carries the same "
+             "items, apply_to_hook into Capture is the identity), with no bound on lengths or offsets. The model is tied to "
+             "src/iter.rs and DiffOp::iter_slices/apply_to_hook by running both on the same ops and by running the extracted "
+             "expand_op/expand_all on the implementation's own output.",
+        note="Trusted: Coq kernel; extraction (ExtrOcamlBasic); OCaml driver and Rust harness glue; the correspondence is "
+             "differential testing over all four op kinds x offsets x lengths and random op lists, not a proof about the Rust source.",
+        technique="Coq proof of model (state machine = declarative spec) + model/implementation correspondence + verified checker on implementation output",
+    ),
+    relevant=lambda comp, kv: {"no_panic", "iter_spec", "slices_spec", "recap_id"},
     run=run_C13,
     generators="iter component: all four op kinds x offsets 0..3 on both sides x lengths 0..3 over sequences whose old "
                "and new values are disjoint, plus random op lists over random sequences: iter_changes, iter_slices, "
